@@ -1,4 +1,4 @@
 From DV Require Import RustTwins.
 Require Extraction.
 Require Import ExtrOcamlBasic.
-Extraction "model.ml" py_parse_tree rs_parse_tree py_tree_cmp rs_tree_cmp.
+Extraction "model.ml" py_parse_tree rs_parse_tree py_tree_cmp rs_tree_cmp count_blocks.
